@@ -286,3 +286,22 @@ Example C06_refusal_body_nonvacuous :
   fn_to_sympy expected_facts [w_deep_other] 0 [] = None.
 Proof. exact (conj eq_refl (conj eq_refl eq_refl)). Qed.
 Print Assumptions C06_refusal_body_nonvacuous.
+
+(** every construct the property text names, inside the theorems at once (FnToSymRefuted.v, [cm_f]):
+    a chain mixing <=, ==, != and <; a four-arm if/elif/elif/else with assignments in three arms and a
+    return in the fourth, code after it; a tuple assignment that reads what it rebinds; a conditional
+    expression; a call into ANOTHER module (its own constant K = 3/2, the caller's K = 5/2) with the
+    arguments swapped; renaming onto the function's own names in another order.  One point per path:
+    the hypotheses of C06_sound_every_constant_environment hold and the values agree; the same function
+    with a keyword argument in the nested call is refused, and [refuses_ss] says so. *)
+Example C06_constructs_nonvacuous :
+  exists e,
+    translate expected_facts [] cm_env [cm_g; cm_f] 1 cm_margs = Some e /\
+    py_value cm_env [cm_g; cm_f] 1 [1#1; 1#1; 2#1] = Some (3#2) /\ seval (cm_rho (1#1) (1#1) (2#1)) e = Some (3#2) /\
+    py_value cm_env [cm_g; cm_f] 1 [3#1; 2#1; 2#1] = Some ((-5)#2) /\ seval (cm_rho (3#1) (2#1) (2#1)) e = Some ((-5)#2) /\
+    py_value cm_env [cm_g; cm_f] 1 [1#1; 2#1; 3#1] = Some (4#1) /\ seval (cm_rho (1#1) (2#1) (3#1)) e = Some (4#1) /\
+    py_value cm_env [cm_g; cm_f] 1 [1#1; 2#1; 1#1] = Some (5#2) /\ seval (cm_rho (1#1) (2#1) (1#1)) e = Some (5#2) /\
+    translate expected_facts [] cm_env [cm_g; cm_f_kw] 1 cm_margs = None /\
+    refuses_ss (mf_body cm_f_kw) false = true /\ refuses_ss (mf_body cm_f) false = false.
+Proof. exact constructs_witness. Qed.
+Print Assumptions C06_constructs_nonvacuous.
